@@ -1692,17 +1692,19 @@ def _rule2(ctx, rep):
 # frozen from reading tools/compliant.py, one line of reason each.  A rule that no longer makes one of these observations
 # cannot reject the violation it exists for.
 _RULE_OBSERVES = {
-    'rule_01': ({'import_module', 'signature'}, 'factory signature: the package is imported and the factory signature inspected'),
-    'rule_02': ({'isinstance'}, 'base types: every bot / routine / state vector / value is tested with isinstance'),
-    'rule_03': ({'name', 'routines', 'state_vectors', '_verify_version'}, 'abstract methods: each abstract accessor is called and the version checked'),
-    'rule_04': ({'name', 'find'}, 'dotted names: name() of algorithms and state vectors is searched for "."'),
-    'rule_05': ({'len'}, 'empty state vectors: the number of predefined keys is measured'),
-    'rule_06': ({'previous', 'import_module'}, 'previous(): references are resolved against the imported task module'),
+    # only calls of the engine / dawgie / pickle API are listed: Python builtins (len, isinstance, ...) have too many
+    # equivalent spellings to be demanded by name
+    'rule_01': ({'import_module'}, 'factory signature: the task package itself is imported'),
+    'rule_02': (set(), 'base types (walks the package with _walk: R-C16-3)'),
+    'rule_03': ({'name', 'routines', 'state_vectors'}, 'abstract methods: the abstract accessors are actually called'),
+    'rule_04': ({'name'}, 'dotted names: name() of algorithms and state vectors is read'),
+    'rule_05': (set(), 'empty state vectors (walks the package with _walk: R-C16-3)'),
+    'rule_06': ({'previous'}, 'previous(): the references an algorithm declares are read'),
     'rule_07': ({'dumps', 'loads'}, 'unpicklable values: a value has to survive the round trip pickle.dumps -> pickle.loads'),
-    'rule_08': ({'isinstance'}, 'ill-typed references: each element of a *_REF is tested with isinstance'),
-    'rule_09': ({'state_vectors', 'len'}, 'missing state vectors: the number of state vectors of every routine is measured'),
-    'rule_10': ({'events', 'isinstance'}, 'schedule moments: every event of the package is read and its fields type-tested'),
-    'rule_11': ({'as_vref', 'task_name'}, 'unresolvable references: references are expanded to value level and resolved by task name'),
+    'rule_08': (set(), 'ill-typed references (walks the package with _walk: R-C16-3)'),
+    'rule_09': ({'state_vectors'}, 'missing state vectors: the state vectors of every routine are read'),
+    'rule_10': ({'events'}, 'schedule moments: every event of the package is read (field checks: R-C20-6)'),
+    'rule_11': ({'as_vref'}, 'unresolvable references: references are expanded to value level before they are resolved'),
 }
 
 
